@@ -46,6 +46,12 @@ impl LinkNameMatcher {
 
 impl Matcher for LinkNameMatcher {
     fn matches(&self, file_info: &WalkEntry, _: &mut MatcherIO) -> bool {
+        // With -L (or -H for a starting point) a link that can be resolved is
+        // treated as its target, so there is no link to look at.
+        if !file_info.file_type().is_symlink() {
+            return false;
+        }
+
         if let Some(target) = read_link_target(file_info) {
             self.pattern.matches(&target.to_string_lossy())
         } else {
